@@ -76,3 +76,46 @@ def run(seed=0):
 
 if __name__ == "__main__":
     print(run())
+
+
+import contextlib
+
+
+@contextlib.contextmanager
+def use_pyx_interp():
+    """run the public API on the .pyx AS WRITTEN: thejoker.thejoker.CJokerHelper is replaced by the transliterated
+    kernel executed concretely (numpy + scipy LAPACK + twobody).  Used by replays: a counterexample counts if it
+    reproduces on an executable derived from the current tree -- the compiled extension or the source as written."""
+    import numpy as np
+    import thejoker.thejoker as tjm
+    from symx import pyxfront
+    g = pyxfront.load_concrete()
+    Py = g["CJokerHelper"]
+
+    def factory(data, prior, trend_M):
+        return Py(data, prior, np.ascontiguousarray(trend_M))
+    old = tjm.CJokerHelper
+    tjm.CJokerHelper = factory
+    try:
+        yield
+    finally:
+        tjm.CJokerHelper = old
+
+
+def replay_both(fn):
+    """decorator for replay functions: first on the compiled extension, then on the .pyx as written"""
+    def wrapped(cand, *a, **k):
+        rr = fn(cand, *a, **k)
+        if rr.get("reproduced") or rr.get("error"):
+            return rr
+        try:
+            with use_pyx_interp():
+                r2 = fn(cand, *a, **k)
+        except Exception as e:
+            return rr
+        if r2.get("reproduced"):
+            r2["detail"] = "[reproduces on fast_likelihood.pyx AS WRITTEN (executed through the transliteration); the compiled extension does not show it, i.e. it is stale with respect to the source] " + r2.get("detail", "")
+            return r2
+        return rr
+    wrapped.__name__ = getattr(fn, "__name__", "replay")
+    return wrapped
